@@ -18,6 +18,7 @@ import FP.Props.C15
 import FP.Props.C20
 import FP.Model.Navigate
 import FP.Model.Conv
+import FP.Lemmas.EvalTotal
 import FP.Model.Calendar
 import FP.Model.Patch
 import FP.Model.Syntax
@@ -153,5 +154,30 @@ theorem patch_total (o : Patch.Outcome) : o = .ok ∨ ∃ e, o = .err e := by
   cases o with
   | ok => exact Or.inl rfl
   | err e => exact Or.inr ⟨e, rfl⟩
+
+/-! ### the assembled evaluator: Compile + Evaluate as a whole never crash -/
+
+/-- THE EVALUATOR MODEL IS TOTAL: for every compiled expression — every nesting of operators, paths,
+    indexers, type operators, criteria and the 41 modelled functions — every environment and every
+    input collection, evaluation yields a collection or a named error, never a crash.  No hypothesis on
+    the operands (zero divisors, MinInt32, empty and multi-item collections, values of the wrong type). -/
+theorem evaluator_never_crashes (env : Eval.Env) (e : Eval.E) (input : List Val) :
+    Eval.eval env e input ≠ .panic :=
+  FP.Lemmas.EvalTotal.eval_ne_panic env e input
+
+/-- … and so is the whole pipeline from the source text: for every source string, function table,
+    environment and input, `run` is a result, an evaluation error, a Compile error or "outside the
+    modelled fragment" — never the crash outcome -/
+theorem compile_evaluate_never_crash (tbl : List FP.Gen.FuncTable.Entry) (src : String) (env : Eval.Env)
+    (input : List Val) : Eval.run tbl src env input ≠ .crash := by
+  unfold Eval.run
+  split
+  · simp
+  · unfold Eval.finish
+    split <;> try simp
+    split <;> try simp
+    rename_i h
+    exact absurd h (FP.Lemmas.EvalTotal.eval_ne_panic _ _ _)
+
 
 end FP.Props.C01
